@@ -922,6 +922,12 @@ pub struct ServerPool {'''),
                     let _ = shutdown_tx.send(());''', new='''                    // Broadcast that client tasks need to finish
                     let _ = shutdown_tx.send(());
                     if total_clients >= 0 { break; }'''),
+    dict(id="c17-drain-arm-awaits-exit-channel", prop="C17", file="src/main.rs", expect="C17-R5",
+         what="the accept loop waits for room in the exit channel it alone drains (D36 again)",
+         old="""                        let _ = exit_tx.try_send(());""", new="""                        let _ = exit_tx.send(()).await;"""),
+    dict(id="c17-sigint-arm-awaits-drain-channel", prop="C17", file="src/main.rs", expect="C17-R5",
+         what="the SIGINT arm waits for room in the drain channel the loop alone drains",
+         old="""                    let _ = drain_tx.try_send(0);""", new="""                    let _ = drain_tx.send(0).await;"""),
     dict(id="c17-admins-kicked", prop="C17", file="src/client.rs", expect="C17-R1",
          what="admin clients are disconnected by shutdown too",
          old='''                _ = self.shutdown.recv() => {
